@@ -7,6 +7,7 @@
    replayed into the real server by harness/drive/x03. *)
 EXTENDS LiveTimelineImplOps, LiveMpdOps, TLC, Json
 CONSTANTS Configs,     \* set of records c (LiveTimelineImplOps) + sampling fields grain, loops
+          Fix,         \* FALSE: the code as it is; TRUE: with the proposed vod0 fixes (proposed_fixes/X03-vod0-*.diff)
           EmitGen,     \* print GEN lines
           Seed         \* selects the thin sample of GEN cases away from breakpoints
 VARIABLES c, now
@@ -31,7 +32,7 @@ Snap(cc, t)   == IF cc.grain = 1 THEN t
                       IF r \in {0, 1, cc.grain - 1} THEN t ELSE t + (cc.grain - 1 - r)
 NextNow(cc, t) == LET t1 == IF t + 1 <= DenseEnd(cc) \/ t + 1 >= GoneFrom(cc) THEN t + 1 ELSE GoneFrom(cc) IN Snap(cc, t1)
 
-Init == c \in Configs /\ now = First(c)
+Init == c \in { [s EXCEPT !.fix = Fix] : s \in Configs } /\ now = First(c)
 Tick == /\ NextNow(c, now) <= GoneEnd(c)
         /\ now' = NextNow(c, now)
         /\ UNCHANGED c
@@ -132,6 +133,17 @@ ImplPtIdentifies == [][(Judged(c, now) /\ Judged(c, now')) =>
                          LET a == Timeline(c, now)
                              b == Timeline(c, now')
                          IN a.pt = b.pt => (a.S = b.S /\ a.sn = b.sn)]_vars
+
+\* ... what does hold: publishTime identifies the live edge (the same publishTime => the same newest segment), for layouts
+\* whose segment ends are whole milliseconds.  (With a sub-ms end publishTime is rounded to the nearest ms: an availability instant
+\* of AST + 0.33 ms gives publishTime = AST, the value the empty MPD before it carries - ImplPtIdentifiesEdgeAll is violated.)
+WholeMs(cc) == \A i \in 0..(cc.N - 1) : (SegEnd(cc, i) * 1000) % cc.TS = 0
+PtEdgeStep == (Judged(c, now) /\ Judged(c, now')) =>
+                 LET a == Timeline(c, now)
+                     b == Timeline(c, now')
+                 IN a.pt = b.pt => a.lastNr = b.lastNr
+ImplPtIdentifiesEdge == [][WholeMs(c) => PtEdgeStep]_vars
+ImplPtIdentifiesEdgeAll == [][PtEdgeStep]_vars
 
 (* ---- (R) generator: the predictions of this state that are replayed into the real server.  A request is emitted at the
    instants next to which its predicted answer changes (both sides of every breakpoint) and at a thin seeded sample of the
